@@ -115,6 +115,26 @@ def grid_keys(chk, grid):
     return keys
 
 
+def extreme_keys(chk):
+    """inputs beyond 2^16 distinct values (each value twice) with small sketches, and tiny inputs with huge sketches"""
+    keys = []
+    n = 0
+    for kind in KINDS:
+        fam = family(kind)
+        for (shape, nn, m) in (("twice", 140000, 16), ("few", 1, 2000), ("few", 30, 2000), ("few", 5, 10000)):
+            if fam == "ord2":
+                if shape == "few" and nn < 4:
+                    continue
+                m = min(m, 256)
+            if fam in ("pmh2", "pmh3", "pmh3a", "pmh3asha") or kind.startswith("pmh"):
+                m = max(m, 2)
+            variant = 1 if fam in ("ss", "ord2") else 0
+            for entry in ENTRIES[fam][:2]:
+                n += 1
+                keys.append(finish_key(chk.seed + 7000 + n, dict(kind=kind, m=m, entry=entry, shape=shape, n=nn, variant=variant)))
+    return keys
+
+
 def random_keys(chk, count, skip_kinds=(), maxn=800):
     rng = random.Random(chk.seed * 1000003 + 12)
     keys, seen = [], set()
@@ -336,7 +356,7 @@ def run(chk):
         "order dependent (C02); with random 63-bit ids their probability is below 1e-9 per run and they are not special-cased",
         "change_rng_seed() is outside the property (same constructor parameters, no re-seeding)"]
     grid = model(chk, big=(chk.tier == "thorough"))
-    keys = grid_keys(chk, grid) + random_keys(chk, 160 if chk.tier == "quick" else 1400)
+    keys = grid_keys(chk, grid) + random_keys(chk, 160 if chk.tier == "quick" else 1400) + extreme_keys(chk)
     cmd = "./check C12 --tier %s (VERIF_SEED=%d)" % (chk.tier, chk.seed)
     rows, metas = observe(chk, keys, "main")
     rejected = validate(chk, rows, keys, "main", cmd)
